@@ -1372,7 +1372,8 @@ func (x *Exec) debugRef(p *Path, d *ssa.DebugRef) {
 	if obj == nil {
 		return
 	}
-	if _, ok := obj.(*types.Var); !ok {
+	if vv, ok := obj.(*types.Var); !ok || vv.IsField() {
+		// a selector expression x.f refers to the field f, not to a local variable of that name
 		return
 	}
 	v, ok := fr.env[d.X]
